@@ -139,7 +139,7 @@ Definition hs_post (t : tstate) (s : sstate) (r : hs_result) (evs : list tevent)
 
 Lemma h_starttls_spec f o closes t s evs h t1 : h_starttls f o closes t s = (evs, h, t1) ->
   (evs = [] /\ h = HSEQ /\ t1 = mk t s /\ (tls t = true \/ esmtp s = false))
-  \/ (evs = [TE false (Reply TLS_FAIL_CODE)] /\ h = HUNKNOWN /\ t1 = mk t s
+  \/ (evs = [TE false (Reply TLS_FAIL_CODE)] /\ (h = HUNKNOWN \/ h = HEDONE) /\ t1 = mk t s
       /\ tls t = false /\ esmtp s = true /\ o_tlsinit o = false)
   \/ (exists e s1, sync_pipelining f s = (Some e, s1) /\ evs = tag false e /\ h = HEXIT /\ t1 = mk t s1
       /\ tls t = false /\ esmtp s = true /\ o_tlsinit o = true)
@@ -152,7 +152,7 @@ Proof.
   destruct (esmtp s) eqn:Ee; cbn [negb].
   2:{ intros H; inversion H; subst. left. auto. }
   destruct (o_tlsinit o) eqn:Ei; cbn [negb].
-  2:{ intros H; inversion H; subst. right; left. auto 10. }
+  2:{ intros H; inversion H; subst. right; left. destruct TLS_ERR_RETURNS_EDONE; auto 10. }
   destruct (sync_pipelining f s) as [[e|] s1] eqn:Es.
   { intros H; inversion H; subst. right; right; left. exists e, s1. auto 10. }
   apply sync_none in Es as (-> & Hi & Hc).
@@ -312,16 +312,20 @@ Proof.
     right.
     apply (Refused h []); [reflexivity|intros c Hx; destruct Hx|].
     destruct Hh3 as [Hx | [Hx | Hx]]; subst h; exact Hh. }
-  destruct (h_starttls_spec _ _ _ _ _ _ _ _ Hhs) as [(-> & -> & -> & Hg)|[(-> & -> & -> & Ht & He & Hi)|[(e & s1 & Hsy & -> & -> & -> & Ht & He & Hi)|(Ht & He & Hi & Hinn & Hcur & Hpost)]]].
+  destruct (h_starttls_spec _ _ _ _ _ _ _ _ Hhs) as [(-> & -> & -> & Hg)|[(-> & Hh' & -> & Ht & He & Hi)|[(e & s1 & Hsy & -> & -> & -> & Ht & He & Hi)|(Ht & He & Hi & Hinn & Hcur & Hpost)]]].
   - (* return 1 *)
     right.
     destruct Hfin as [(Hx & _)|(_ & -> & ->)]; [discriminate|].
     apply (Refused HSEQ []); [reflexivity|intros c Hx; destruct Hx|exact Hh].
   - (* no usable certificate *)
     right.
-    destruct Hfin as [(Hx & _)|(_ & -> & ->)]; [discriminate|].
-    destruct Hh as (ev & so' & Ho & -> & ->). cbn [mk tls] in *.
-    apply (Refused HUNKNOWN [Reply TLS_FAIL_CODE]).
+    destruct Hfin as [(Hx & _)|(_ & -> & ->)]; [destruct Hh' as [Hy|Hy]; rewrite Hy in Hx; discriminate|].
+    assert (Hev : exists ev so', on_error s h' = (ev, so') /\ evs = [TE false (Reply TLS_FAIL_CODE)] ++ tag false ev
+                    /\ so = option_map (mk (mk t s)) so').
+    { destruct Hh' as [Hy|Hy]; subst h'; destruct Hh as (ev & so' & Ho & -> & ->); exists ev, so'; cbn [mk tls ss] in *;
+        rewrite Ht; auto. }
+    destruct Hev as (ev & so' & Ho & -> & ->).
+    apply (Refused h' [Reply TLS_FAIL_CODE]).
     + reflexivity.
     + intros c [Hc|[]]. inversion Hc. destruct codes_ok as [_ ->]. discriminate.
     + exists ev, so'. rewrite Ht. cbn [tag map]. auto.
